@@ -152,6 +152,20 @@ func dangerous(ref *elfref.File, img []byte) bool {
 	return false
 }
 
+// slowForChild: a loadable segment between 16 MiB and the loader's bound of
+// 1 GiB (above it the image is refused at once).
+func slowForChild(ref *elfref.File) bool {
+	if ref == nil {
+		return false
+	}
+	for _, p := range ref.Progs {
+		if p.Type == elfref.PTLoad && p.Memsz >= p.Filesz && p.Memsz > 1<<24 && p.Memsz <= 1<<30 {
+			return true
+		}
+	}
+	return false
+}
+
 func sortedBlocks(bs []elfref.Block) []elfref.Block {
 	out := make([]elfref.Block, 0, len(bs))
 	for _, b := range bs {
@@ -465,10 +479,21 @@ func (e *Engine) executeStartup(t *Trace, ctx *core.Ctx) {
 		if err := os.WriteFile(path, img, 0o644); err != nil {
 			panic("HARNESS: cannot write scratch image: " + err.Error())
 		}
+		if keep := os.Getenv("VERIF_KEEP_IMAGE"); keep != "" {
+			os.WriteFile(keep, img, 0o644) // debugging aid: a copy of the image as the tool sees it
+		}
 	}
 	ev := len(t.Faults)
 	ref, _ := elfref.Parse(img)
 	if t.Child {
+		if slowForChild(ref) {
+			// tens or hundreds of megabytes that the loader accepts and really
+			// allocates: start-up takes the real binary from seconds to a
+			// minute, which is no subject of the property and would only trip
+			// the child's watchdog
+			ctx.Probe("skipped_slow_child")
+			return
+		}
 		e.child(t, ctx, path, ev)
 		return
 	}
